@@ -158,12 +158,12 @@ class DeepTracer(Tracer):
                     ver(self_, *a, **k)
                 except M.AuthenticationFailed:
                     tr.quiet -= 1
-                    tr.log('f', '0')
+                    tr.log('v', '0')
                     tr.quiet += 1
                     raise
             finally:
                 tr.quiet -= 1
-            tr.log('f', '1')
+            tr.log('v', '1')
         IKESA.IkeSa._generate_auth_payload = gen_wrapper
         IKESA.IkeSa._verify_auth_payload = ver_wrapper
         # kernel verdict on a CHILD_SA pair
